@@ -136,6 +136,23 @@ def evaluate(spec, seq, w, cfg, mode, w_b=None):
                 starts = sorted(members)
                 if cfg.get("starts") == "few":
                     starts = sorted({0, nv // 2, nv - 1} & set(members))
+                if mode == "C06" and uni is not None and vn == "none":
+                    # a start vertex outside the universe: whatever the call does (it is documented to raise
+                    # ValueError), it must not hand back a listing that contains a non-member
+                    for s in sorted(set(range(nv)) - set(members)):
+                        for tname, (tlist, tgen, torder) in TRAVERSALS.items():
+                            for form, fn in (("list", tlist), ("generator", tgen)):
+                                evals += 1
+                                got = (guarded if form == "list" else guarded_gen)(
+                                    fn, limit, uni, w.v[s], direction_sensitive=d, unknown_handling=u)
+                                if got[0] == "ret" and any(x not in members for x in idx(w, got[1])):
+                                    viols.append((f"{tname}|dir={dn}|unknown={un}|via=none|result=none|universe=partial|"
+                                                  f"start-outside-universe|{form}-form-lists-a-non-member",
+                                                  [tname, s, uname, dn, un, vn, "outside-" + form]))
+                                elif got[0] == "nonterm":
+                                    viols.append((f"{tname}|dir={dn}|unknown={un}|via=none|result=none|universe=partial|"
+                                                  f"start-outside-universe|non-termination",
+                                                  [tname, s, uname, dn, un, vn, "outside-" + form]))
                 for s in starts:
                     # reach closure through the table
                     R = [s]
